@@ -33,6 +33,35 @@ class Outside(Exception):
     pass
 
 
+FLAT_ATOMS = False
+
+
+def leaf_atoms(x, acc, depth=0):
+    """the strings and numbers held anywhere inside a raw value, dictionary keys included (result names of a ParseResults are not)"""
+    if depth > 300 or x is None or x is True or x is False or x is U.SQL_NULL:
+        return acc
+    if isinstance(x, (str, int, float)):
+        acc.append(x)
+    elif isinstance(x, bytes):
+        acc.append(x.decode("utf8"))
+    elif isinstance(x, U.Call):
+        leaf_atoms(x.args, acc, depth + 1)
+        for k, v in (x.kwargs or {}).items():
+            acc.append(str(k))
+            leaf_atoms(v, acc, depth + 1)
+    elif isinstance(x, impl.ParseResults):
+        for v in x:
+            leaf_atoms(v, acc, depth + 1)
+    elif isinstance(x, dict):
+        for k, v in x.items():
+            acc.append(str(k))
+            leaf_atoms(v, acc, depth + 1)
+    elif isinstance(x, (list, tuple)):
+        for v in x:
+            leaf_atoms(v, acc, depth + 1)
+    return acc
+
+
 def dump(x, memo, depth=0):
     """raw parse result -> Coq term of type raw; raises Outside when the value is not in the modelled universe"""
     if depth > 300:
@@ -64,6 +93,13 @@ def dump(x, memo, depth=0):
         named = clist([cpair(cstr(k), clist([dump(v, memo, depth + 1) for v in vs])) for k, vs in items])
         if all(all(nullable(v, memo) for v in vs) for _, vs in items):
             flat = clist([dump(v, memo, depth + 1) for v in x])
+        elif FLAT_ATOMS:
+            # scrub will not look at the flat tokens here (a named one surely survives): they enter the model as the atoms they hold,
+            # which is all that Model/ScrubAtoms.v (ratoms / hidden) asks of them
+            acc = []
+            for v in x:
+                leaf_atoms(v, acc)
+            flat = clist([("(RStr %s)" % cstr(a)) if isinstance(a, str) else ("(RInt %s)" % cz(a)) if isinstance(a, int) else ("(RFloat %s)" % cstr(repr(a))) for a in dict.fromkeys(acc)])
         else:
             flat = "[]"
         return "(RPR true %s %s)" % (named, flat)
